@@ -70,7 +70,10 @@ def unit_code(name: str, prefix: Optional[str]) -> str:
 FURTHER = [False]
 
 
-def replay(sc: str, dc: str, C: Fraction, D: Fraction, what: str) -> str:
+def replay(sc: str, dc: str, C: Fraction, D: Fraction, what: str, kind: str = "float") -> str:
+    mags = {"float": "(300.0, 0.0, -40.0, 1.5, -1000.0)",
+            "int": "(300, 0, -40, 2, -1000)",
+            "dec": "(Decimal('300'), Decimal('0'), Decimal('-40'), Decimal('1.5'), Decimal('-1000'))"}[kind]
     pre = """
 from measured import Temperature
 Temperature.scale(100 * measured.si.Kelvin, "c10 scale on kelvin", "c10sk")
@@ -78,11 +81,13 @@ Temperature.scale(50 * measured.us.Rankine, "c10 scale on rankine", "c10sr")
 Temperature.scale(-5 * measured.si.Kelvin, "c10 second scale on kelvin", "c10sk2")
 """ if FURTHER[0] else ""
     return families.REPLAY_IMPORTS + pre + f"""
+from decimal import Decimal
 src, dst = {sc}, {dc}
 C, D = {float(C)!r}, {float(D)!r}   # exact affine definition through kelvin: target = C*m + D
 bad = []
-for m in (300.0, 0.0, -40.0, 1.5, -1000.0):
+for m in {mags}:   # magnitudes of the numeric type the obligation was about
     got = (m * src).in_unit(dst)
+    m = float(m)
     want = C * m + D
     back = got.in_unit(src)
     print(m, src, '->', got, ' definition:', want, ' back:', back)
@@ -159,7 +164,7 @@ def worker(task: Tuple) -> Dict[str, Any]:
             if cv.outcome != "ok":
                 acc.ob("sat", f"{label}/{kind}:returns", key)
                 acc.out["viol"].append((f"C10:raises:{s}->{d}", f"{label} raises {cv.outcome}",
-                                        replay(sc, dc, C, D, "raises")))
+                                        replay(sc, dc, C, D, "raises", kind)))
                 continue
             t = symnum.q(cv.c) * m + symnum.q(cv.d)
             o = symnum.q(C) * m + symnum.q(D)
@@ -188,10 +193,11 @@ def worker(task: Tuple) -> Dict[str, Any]:
                     acc.ob("unknown", f"{label}/{kind}:{g}", key)
                 else:
                     acc.ob("sat", f"{label}/{kind}:{g}", key)
-                    acc.out["viol"].append((f"C10:{g}:{s}->{d}:{sigpfx or 'plain'}",
-                                            f"{label}: library m*{float(cv.c)!r}+{float(cv.d)!r}, "
+                    acc.out["viol"].append((f"C10:{g}:{s}->{d}:{sigpfx or 'plain'}" +
+                                            ("" if kind == "float" else f":{kind}"),
+                                            f"{label} ({kind} magnitudes): library m*{float(cv.c)!r}+{float(cv.d)!r}, "
                                             f"definition m*{float(C)!r}+{float(D)!r}",
-                                            replay(sc, dc, C, D, g)))
+                                            replay(sc, dc, C, D, g, kind)))
             # round trip through the real code
             back = convterm.convert(dst, src, kind)
             acc.out["paths"] += back.paths
@@ -200,9 +206,10 @@ def worker(task: Tuple) -> Dict[str, Any]:
                 ok = abs(cc_ - 1) <= REL and abs(dd_) <= REL * (abs(D / C) + 1)
                 acc.ob("unsat" if ok else "sat", f"{label}/{kind}:round-trip", key)
                 if not ok:
-                    acc.out["viol"].append((f"C10:round-trip:{s}->{d}:{sigpfx or 'plain'}",
-                                            f"{label}: there and back gives m*{float(cc_)!r}+{float(dd_)!r}",
-                                            replay(sc, dc, C, D, "round-trip")))
+                    acc.out["viol"].append((f"C10:round-trip:{s}->{d}:{sigpfx or 'plain'}" +
+                                            ("" if kind == "float" else f":{kind}"),
+                                            f"{label} ({kind} magnitudes): there and back gives m*{float(cc_)!r}+{float(dd_)!r}",
+                                            replay(sc, dc, C, D, "round-trip", kind)))
             if with_cmp and kind == "float":
                 compare(acc, src, dst, sc, dc, maps[s], vs, maps[d], vd, label)
         acc.sample({"pair": label, "definition": f"m*{float(C)!r}+{float(D)!r}", "kind": kind})
